@@ -11,7 +11,7 @@ Definition gv (x : nat) : option nat :=
   match x with
   | 0 => Some M | 1 => Some TM | 8 => Some FM | 9 => Some FM | 10 => Some FM | _ => None
   end.
-Definition gq (q : nat) : option nat := match q with 0 => Some M | _ => None end.
+Definition gq (q : nat) : option nat := match q with 0 => Some M | 2 => Some IM | _ => None end.
 
 Definition n_ := mkA [] false.
 Definition t_ := mkA [TM] false.
@@ -19,6 +19,7 @@ Definition m_ := mkA [M] false.
 Definition mc := mkA [M] true.
 Definition nc := mkA [] true.
 Definition f_ := mkA [FM] false.
+Definition i_ := mkA [IM] false.
 
 Definition a_exec_main : list abs :=
   [ n_; t_; t_; t_; t_; t_; t_;  n_; n_; n_; n_;  n_; t_; t_; n_; n_; m_; m_; n_;
@@ -38,12 +39,17 @@ Definition An : annot := fun id =>
   | 6 => [n_; n_; n_; f_; f_; n_; n_] ++ a_gd ++ [n_; n_; n_; n_; n_]
   | 7 => a_set ++ [n_; f_; f_; n_; n_; n_; n_]
   | 8 => a_gd ++ [n_]
+  | 10 => [ n_; n_; n_; n_;  n_; n_; n_; n_;  n_; n_; i_; i_;  n_; n_; nc;  n_; i_; i_; n_; n_;
+            n_; n_; n_; n_;  n_; i_; i_; i_;  n_; n_; nc;  n_; i_; i_; n_; n_;  i_; n_ ]
+  | 11 => [ n_; n_; i_; i_; n_; n_; n_ ]
+  | 12 => [ n_; t_; t_; t_; t_; t_; t_; n_; n_; n_; n_; n_; t_; t_; n_; n_; m_; m_; n_; n_; t_; t_; n_; n_; n_; n_; t_; t_; n_; n_; m_; m_; mc; nc; n_; m_; m_; n_; n_; m_; n_; n_; n_; n_; n_; m_; m_; mc; nc; n_; m_; m_; n_; n_; m_; n_ ]
+  | 13 => [ n_; t_; t_; n_; n_; m_; m_; mc; nc; n_; m_; m_; n_; n_; m_; m_; m_; m_; m_; n_ ]
   | _ => []
   end.
 
 Lemma check_all : forall id, check_prog gv gq (P id) (An id) = true.
 Proof.
-  intros id. do 9 (destruct id as [|id]; [vm_compute; reflexivity|]). reflexivity.
+  intros id. do 14 (destruct id as [|id]; [vm_compute; reflexivity|]). reflexivity.
 Qed.
 
 (* the pre-fix code does not pass: Thread::Join wrote m_running without Thread::m_mutex *)
@@ -55,7 +61,9 @@ Proof. exists 23, RUNNING. repeat split. Qed.
 Inductive initial : state -> Prop :=
 | init_e lims : initial (init_exec lims)
 | init_fr : initial init_fut_raw
-| init_fc g : initial (init_fut_copy g).
+| init_fc g : initial (init_fut_copy g)
+| init_s lims rs k : initial (init_ss lims rs k)
+| init_er lims rs : initial (init_execre lims rs).
 
 Lemma initial_inv s0 : initial s0 -> Inv P An s0 /\ fault s0 = None.
 Proof.
@@ -66,6 +74,10 @@ Proof.
   - destruct t as [|[|i]]; cbn; auto.
     match goal with |- context [if ?c then _ else _] => destruct c end; cbn; auto.
   - destruct t as [|[|i]]; cbn; auto.
+  - destruct t as [|[|i]]; cbn; auto.
+    match goal with |- context [if ?c then _ else _] => destruct c end; cbn; auto.
+  - destruct t as [|i]; cbn; auto.
+    match goal with |- context [if ?c then _ else _] => destruct c end; cbn; auto.
   - destruct t as [|[|i]]; cbn; auto.
     match goal with |- context [if ?c then _ else _] => destruct c end; cbn; auto.
 Qed.
